@@ -167,6 +167,23 @@ macro_rules! query_loop {
         }
         one!(Ix0, "Ix0", 0, false);
         one!(Ix1, "Ix1", 1, true);
+        // the query that equals the interpolator's own axis (evaluation at the knots): fast path vs general path
+        {
+            let xa = Array1::from_vec(s.x.clone());
+            let ya = Array1::from_iter((0..s.x.len()).map(|k| s.y[k % s.y.len()]));
+            let (xd, yd) = (xa.clone().into_dyn(), ya.clone().into_dyn());
+            let f = catch(|| callq!($two, interp, &xa, &ya));
+            let g = catch(|| callq!($two, interp, &xd, &yd));
+            $obs.asserts += 1;
+            match (f, g) {
+                (Ok(Ok(f)), Ok(Ok(g))) => {
+                    if f.shape() != g.shape() || f.iter().map(|v| v.bits()).ne(g.iter().map(|v| v.bits())) {
+                        return Err(Fail::new("fast-vs-general/query-equals-axis", format!("{}: query equal to the x axis: fast path {:?} vs per-element path {:?}", $ctx, f.iter().take(6).collect::<Vec<_>>(), g.iter().take(6).collect::<Vec<_>>())));
+                    }
+                }
+                (f, g) => return Err(Fail::new("fast-vs-general/query-equals-axis", format!("{}: query equal to the x axis: outcomes differ or fail: {:?} / {:?}", $ctx, f.map(|r| r.map(|_| ())), g.map(|r| r.map(|_| ()))))),
+            }
+        }
         one!(Ix2, "Ix2", 2, false);
         one!(Ix3, "Ix3", 3, false);
         one!(IxDyn, "IxDyn(rank 1)", 1, false);
